@@ -1,4 +1,5 @@
 import Zeno.Proofs.Stages
+import Zeno.Proofs.Depth
 import Zeno.Proofs.Warc
 import Zeno.Gen.Stages
 import Zeno.Gen.Item
@@ -50,6 +51,18 @@ theorem c06_children_only_down_to_level_three (cfg : Cfg) (ex : String → Extra
     intro hd
     rcases no_extraction_beyond_depth S facts_ok cfg ex i dnr hdc hd with h' | ⟨c, h'⟩ <;> rw [h] at h' <;> cases h'
   omega
+
+/-- **Asset depth as an invariant of the whole tree.** `levelsOK` = every node that still has pending work in its
+subtree (itself Fresh / PreProcessed / Archived, or a descendant) sits at most three levels below the page, redirections
+not counted. A lone seed satisfies it; `archive` keeps it; `postprocess` — the only place where nodes are created — keeps
+it whenever domains-crawl is off, whatever the site served. (`preprocess` only removes nodes and changes Fresh into Seen /
+PreProcessed; completion marking relabels finished subtrees only. Both are covered by the stage-level runs, where the depth
+of every fetch is judged, not by a theorem.) -/
+theorem c06_depth_invariant (cfg : Cfg) (hdc : cfg.domainsCrawl = false) (ex : String → Extract) (srv : String → Option Outcome) (t : Tree)
+    (h : t.levelsOK 0 true = true) :
+    (postprocess S cfg ex t).1.levelsOK 0 true = true ∧ (archive srv t).levelsOK 0 true = true ∧
+    (∀ i : Info, (Tree.node i .nil).levelsOK 0 true = true) :=
+  ⟨Tree.post_levelsOK S facts_ok cfg hdc ex _ _ 0 true t h, Tree.archive_levelsOK srv _ _ 0 true t h, seed_levelsOK⟩
 
 /-- **Hops.** Assets inherit the page's hops. An outlink matching `--domains-crawl` is queued with hops 0;
 any other outlink is queued only from a page with fewer than `--max-hops` hops, with the page's hops + 1.
